@@ -13,5 +13,7 @@ Definition pre_nonempty (n : Z) : bool := 0 <? n.
 Definition pre_index (n i : Z) : bool := i <? n.
 Definition pre_count (n c : Z) : bool := c <=? n.
 Definition pre_span_subspan (n off c : Z) : bool := (off <=? n) && ((c =? dyn) || (off + c <=? n)).
+(* [span.cons]: extent == dynamic_extent || count == extent *)
+Definition pre_span_ctor (ext count : Z) : bool := (ext =? dyn) || (count =? ext).
 (* optional::operator*, expected::operator* / error(), variant access *)
 Definition pre_variant (active i : Z) : bool := i =? active.
